@@ -7,10 +7,32 @@ def repo_commits(prefix):
     return [l.split()[0] for l in out.splitlines() if l.split(" ", 1)[1].startswith(prefix)]
 
 # id -> (technique, level text, level note, design ref)
+T = "Trusts bls12_381_plus arithmetic / hash_to_curve / pairing and sha2, sha3; sizes bounded as stated in the evidence rule. Exploration finds counterexamples, it does not establish absence."
 BUILT = {
- "C01": ("property-based testing (proptest): generated keys/headers/message vectors, validity + round-trip + None/empty metamorphic oracle, both suites",
-         "Generated-input search: sign/verify/round-trip on hundreds (quick) to thousands (thorough) of shapes incl. L=0, 255..257, 1000+, empty and 1 MiB messages, None vs empty spellings; finds counterexamples, does not establish absence.",
-         "Trusts bls12_381_plus arithmetic; sizes bounded (L <= 10^4, messages/headers <= 1 MiB).", "DESIGN.md §6 C01"),
+ "C01": ("property-based testing (proptest): generated keys/headers/message vectors; validity + round-trip + None/empty metamorphic oracle, both suites",
+         "Generated-input search: sign/verify/round-trip on hundreds (quick) to thousands (thorough) of shapes incl. L=0, 255..257, 1000+, empty and 1 MiB messages, None vs empty spellings.", T, "DESIGN.md §6 C01"),
+ "C02": ("property-based testing: honest signature + exhaustive per-case mutation catalogue (metamorphic: any single edit => reject), all 640 bit flips, cross-suite / cross-interface",
+         "Every mutation family of the quantifier is enumerated per generated honest case (tens of thousands of rejected verifications per quick run), with shapes beyond the fixtures' 16-entry vectors forced.", T, "DESIGN.md §6 C02"),
+ "C03": ("property-based testing: exhaustive enumeration of all 2^L disclosure masks for small L inside generated cases, class-sampled masks for large L; round-trip and length oracle",
+         "All subsets for L <= 6 (quick) / 10 (thorough) under both suites and three header/ph classes; sampled masks up to L = 257 / 1000; production randomness path.", T, "DESIGN.md §6 C03"),
+ "C04": ("property-based testing + attacker programs: statement edits, bit flips, whole-scalar framing edits, forged proofs assembled from public data with a reference model, negative control t = sk",
+         "Enumerated edit catalogue and named forgery families (identity / Bv / P1 / generators / random points, responses cancelling the verifier's recomputation), as octets and as serde-built objects, plain and blind verifier.", T + " Forgery families are the named ones only.", "DESIGN.md §6 C04"),
+ "C05": ("property-based testing: blind issuance + presentation round trips, exhaustive 2^L x 2^M disclosure pairs for small shapes",
+         "All disclosure pairs for L, M <= 3 (quick) / 4 (thorough), fixed shapes with L+1+M > 16, random shapes; commit / blind_sign / verify / proof round trips incl. octet codecs.", T, "DESIGN.md §6 C05"),
+ "C06": ("property-based testing: honest blind run + three mutation groups (commitment octets, verify_blind_sign inputs, blind_proof_verify inputs), all bit flips for selected runs",
+         "Every single-bit flip of commitment / proof octets for the fixed runs, sampled otherwise; every whole-scalar truncation / extension; single edits of every verifier input.", T, "DESIGN.md §6 C06"),
+ "C07": ("stateful property-based testing over generation histories (single thread, 1/4/16 threads on a barrier, fresh child processes); witness-side recomputation of every blinding scalar; two-transcript extractor",
+         "Histories of 64 (quick) / 1000 (thorough) generations from identical inputs; reuse, structure, small values, repeated points, extraction and secret-in-encoding are refuted by algebra over the pooled history.", T + " Freshness/independence can only be refuted by sampling.", "DESIGN.md §6 C07"),
+ "C08": ("fuzzing by structured generation: every length 0..=1024 x byte classes into every decoder/entry point, generated index lists and counts over the whole usize range, mutated JSON; thorough adds a coverage-guided libFuzzer campaign; oracle = returns under catch_unwind with overflow checks and a generator budget (hook H1)",
+         "Exhaustive over lengths 0..=1024 per decoder and byte class; thousands of structured calls with boundary indexes/counts; work bound enforced by the generator-budget hook.", T + " update_signature's n is generated only in 0..=64 and usize::MAX.", "DESIGN.md §6 C08"),
+ "C09": ("property-based testing: round-trip, canonical-form (decode then encode reproduces the octets) and forbidden-class relations over honest encodings, all single-bit flips, extensions, truncations and crafted point/scalar patterns; thorough adds a libFuzzer decode-encode target",
+         "Every codec the API offers (octets, coordinates, JSON); forbidden classes built independently with bls12_381_plus primitives (off-curve, non-subgroup by search, x >= p, scalar >= r, flags, identity, e = 0).", T, "DESIGN.md §6 C09"),
+ "C10": ("differential testing against an independent reference implementation of the drafts (validated against all fixtures first): byte equality of outputs, equality of verifier decisions on honest and mutated artefacts, interop both ways; thread schedules on a barrier",
+         "Thousands of generated operations per run (KeyGen thresholds, generator histories, hash_to_scalar, sign, all verifiers incl. blind), plus operation lists executed by 2/4/16 threads.", "Reference shares bls12_381_plus arithmetic / hash_to_curve and sha2/sha3 with the library; everything above that is re-implemented from the drafts. Interleavings are sampled.", "DESIGN.md §4, §6 C10"),
+ "C11": ("property-based testing: cross-verifier matrix (every honest artefact into every foreign verifier / interface) and set relations over generator lists (prefix stability, no identity / P1 / repetition, disjointness)",
+         "Generated shapes for the 5 artefact kinds x foreign verifiers; exhaustive prefix check for n <= 40, sampled to 64 / 512.", T, "DESIGN.md §6 C11"),
+ "C12": ("model-based (stateful) property-based testing: generated update histories against a model (current vector + A = B_ref/(sk+e)), probes for out-of-range positions and wrong old values at every step",
+         "Hundreds (quick) / thousands (thorough) of histories with up to 12 / 32 updates incl. sweeps over every position and vectors of 24 / 33 / 64 messages.", T, "DESIGN.md §6 C12"),
 }
 NOT_YET = {}
 ALL = ["C%02d" % i for i in range(1, 20)]
